@@ -12,6 +12,7 @@ import (
 
 // Val is a symbolic Go value: a vector of scalar terms laid out by layout(T).
 type Val struct {
+	Glob string // loaded from this package-level variable (objects reachable only from it share its lock discipline)
 	Set *Sort // non-nil: the value is a set (Array elem Bool), L[0] is the array term
 	T   types.Type
 	L   []Term
@@ -215,7 +216,10 @@ func (vc *VC) oblige(st *State, class, fn, detail string, pos token.Pos, goal Te
 		o.Pos = fmt.Sprintf("%s:%d", strings.TrimPrefix(p.Filename, "/repo/"), p.Line)
 	}
 	vc.obls = append(vc.obls, o)
-	if class != "CAND" && class != "COVER" {
+	switch class {
+	case "SAFE", "PRE", "INV", "TERM":
+		// later obligations may rely on earlier safety / precondition / invariant
+		// checks having passed (each is reported on its own)
 		vc.fact(Imp(st.reach, goal))
 	}
 	return o
